@@ -2,7 +2,7 @@
    Property theorems only (Run/ExecTheorems.v), pinned by Check, followed by Print Assumptions. *)
 From Coq Require Import ZArith String.
 From ApolloVerif Require Import Base.Chars Ast.Ast Schema.Model Run.Json Run.Coerce Run.TypedDoc Run.Prog
-  Run.Execute Run.ExecTop Run.RefExecute Run.ExecKnown Run.ExecProofs Run.ExecPaths Run.ExecTheorems
+  Run.Execute Run.ExecTop Run.RefExecute Run.ExecProofs Run.ExecPaths Run.ExecTheorems
   Run.ExecRefDefs Run.ExecRefInv Run.ExecRefFuel Run.ExecRefCollect Run.ExecRefTyping Run.ExecRefProp Run.ExecRefSim
   Run.ExecRefFuelRef Run.ExecRefNull Run.ExecRefTheorems.
 Local Open Scope string_scope.
@@ -11,9 +11,9 @@ Local Open Scope list_scope.
 (* C26_nonnull, for ANY resolver world and every request that gets a response:
    the data is shaped by the operation's selection set on the root type (ExecProofs.shape / shape_obj /
    shape_fields): exactly the collected response keys in order (minus fields undefined on the object type or skipped
-   by the resolver), a JSON array per list wrapper of the field type, leaves accepted by result coercion, objects
-   shaped by the merged sub-selections on a concrete object type allowed at that position, and null only where the
-   selection's field type (`field.ty()`) — or the field's type on the object type — is nullable;
+   by the resolver), a JSON array per list wrapper of the field's type on the concrete object type, leaves accepted by
+   result coercion, objects shaped by the merged sub-selections on a concrete object type allowed at that position,
+   and null only where the field's type on the concrete object type (`field_def.ty`) is nullable;
    and data = null comes with at least one field error (one direction of "data is null exactly when a null
    propagates to the root").
    Equality with the reference executor of Run/RefExecute.v, both directions of data_null_iff and the sufficiency of
@@ -78,41 +78,45 @@ Example C26_nonvacuous :
   world_skipfree x_nv_world = true.
 Proof. exact c26_nonvacuous. Qed.
 
-(* The full statement is false of the faithful model: with `interface I { f: Int }  type T implements I { f: Int! }
-   type Query { i: I }`, the document `{ i { f } }` and a T whose f resolves to null, the code's response has null
-   at the non-null position T.f and no error; the reference propagates the null to `i` and reports the error. *)
-Theorem C26_covariant_refuted :
-  (exists d, td_build x_cov_schema x_cov_doc = Some d /\ known_covariant x_cov_schema d = true) /\
+(* Formerly refuted (class covariant_field_type, repaired in execute_field): with `interface I { f: Int }
+   type T implements I { f: Int! }  type Query { i: I }`, the document `{ i { f } }` and a T whose f resolves to null,
+   the value is completed against T.f's type: the null propagates to `i` and the error is reported, as the reference
+   says (the general statement is C26_eq_reference below, which no longer excludes such schemas). *)
+Theorem C26_covariant_repaired :
+  (exists d, td_build x_cov_schema x_cov_doc = Some d) /\ sch_exec_wf x_cov_schema = true /\
   fst (execute_request x_cov_schema x_cov_doc [] x_cov_world) =
-    EoResponse {| er_data := Some [(xs "i", JObj [(xs "f", JNull)])]; er_errors := [] |} /\
-  ref_execute x_cov_schema x_cov_doc [] x_cov_world =
     EoResponse {| er_data := Some [(xs "i", JNull)];
-                  er_errors := [{| ge_class := EcNull; ge_path := [PsKey (xs "i"); PsKey (xs "f")] |}] |}.
-Proof. exact c26_covariant_refuted. Qed.
-Check C26_covariant_refuted :
-  (exists d, td_build x_cov_schema x_cov_doc = Some d /\ known_covariant x_cov_schema d = true) /\
+                  er_errors := [{| ge_class := EcNull; ge_path := [PsKey (xs "i"); PsKey (xs "f")] |}] |} /\
+  ref_execute x_cov_schema x_cov_doc [] x_cov_world = fst (execute_request x_cov_schema x_cov_doc [] x_cov_world).
+Proof. exact c26_covariant_repaired. Qed.
+Check C26_covariant_repaired :
+  (exists d, td_build x_cov_schema x_cov_doc = Some d) /\ sch_exec_wf x_cov_schema = true /\
   fst (execute_request x_cov_schema x_cov_doc [] x_cov_world) =
-    EoResponse {| er_data := Some [(xs "i", JObj [(xs "f", JNull)])]; er_errors := [] |} /\
-  ref_execute x_cov_schema x_cov_doc [] x_cov_world =
     EoResponse {| er_data := Some [(xs "i", JNull)];
-                  er_errors := [{| ge_class := EcNull; ge_path := [PsKey (xs "i"); PsKey (xs "f")] |}] |}.
-Print Assumptions C26_covariant_refuted.
+                  er_errors := [{| ge_class := EcNull; ge_path := [PsKey (xs "i"); PsKey (xs "f")] |}] |} /\
+  ref_execute x_cov_schema x_cov_doc [] x_cov_world = fst (execute_request x_cov_schema x_cov_doc [] x_cov_world).
+Print Assumptions C26_covariant_repaired.
 
-(* Second known class: `scalar Any  type Query { any(j: Any): Any }`, `query($v: Int) { any(j: {a: $v}) }` with
-   {"v": 3}: a variable nested in a literal at a scalar position is not substituted; the valid document's field
-   fails with a SuspectedValidationBug error and its resolver is never called. *)
-Theorem C26_nested_variable_refuted :
-  (exists d, td_build x_nv2_schema x_nv2_doc = Some d /\ known_nested_var d = true) /\
+(* Formerly refuted (class nested_variable_in_scalar_literal, repaired in coerce_argument_value): `scalar Any
+   type Query { any(j: Any): Any }`, `query($v: Int) { any(j: {a: $v}) }` with {"v": 3}: the variable nested in the
+   literal at a custom-scalar position is substituted, the resolver is called with {"j": {"a": 3}} and there is no
+   error. *)
+Theorem C26_nested_variable_repaired :
+  (exists d, td_build x_nv2_schema x_nv2_doc = Some d) /\
   execute_request x_nv2_schema x_nv2_doc [(xs "v", JInt 3)] [((0%N, xs "any"), BhEcho)] =
-    (EoResponse {| er_data := Some [(xs "any", JNull)];
-                   er_errors := [{| ge_class := EcBug; ge_path := [PsKey (xs "any")] |}] |}, []).
-Proof. exact c26_nested_variable_refuted. Qed.
-Check C26_nested_variable_refuted :
-  (exists d, td_build x_nv2_schema x_nv2_doc = Some d /\ known_nested_var d = true) /\
+    (EoResponse {| er_data := Some [(xs "any", JObj [(xs "j", JObj [(xs "a", JInt 3)])])]; er_errors := [] |},
+     [{| ec_obj := 0%N; ec_field := xs "any"; ec_args := [(xs "j", JObj [(xs "a", JInt 3)])] |}]) /\
+  ref_execute x_nv2_schema x_nv2_doc [(xs "v", JInt 3)] [((0%N, xs "any"), BhEcho)] =
+    fst (execute_request x_nv2_schema x_nv2_doc [(xs "v", JInt 3)] [((0%N, xs "any"), BhEcho)]).
+Proof. exact c26_nested_variable_repaired. Qed.
+Check C26_nested_variable_repaired :
+  (exists d, td_build x_nv2_schema x_nv2_doc = Some d) /\
   execute_request x_nv2_schema x_nv2_doc [(xs "v", JInt 3)] [((0%N, xs "any"), BhEcho)] =
-    (EoResponse {| er_data := Some [(xs "any", JNull)];
-                   er_errors := [{| ge_class := EcBug; ge_path := [PsKey (xs "any")] |}] |}, []).
-Print Assumptions C26_nested_variable_refuted.
+    (EoResponse {| er_data := Some [(xs "any", JObj [(xs "j", JObj [(xs "a", JInt 3)])])]; er_errors := [] |},
+     [{| ec_obj := 0%N; ec_field := xs "any"; ec_args := [(xs "j", JObj [(xs "a", JInt 3)])] |}]) /\
+  ref_execute x_nv2_schema x_nv2_doc [(xs "v", JInt 3)] [((0%N, xs "any"), BhEcho)] =
+    fst (execute_request x_nv2_schema x_nv2_doc [(xs "v", JInt 3)] [((0%N, xs "any"), BhEcho)]).
+Print Assumptions C26_nested_variable_repaired.
 
 (* ================================================================ second part: the reference executor
 
@@ -121,17 +125,19 @@ Print Assumptions C26_nested_variable_refuted.
                                   fragments reachable in the document form no cycle (decidable; validation's
                                   NoFragmentCycles).  Without it the code itself does not terminate.
      sch_exec_wf s = true         type names are unique in the type map, no object / interface type declares a field
-                                  named __typename / __schema / __type, the built-in scalar String is present
-                                  (decidable; true of every schema the real builder builds)
-     known_covariant s d = false  outside the first known class of Run/ExecKnown.v (the second class, nested
-                                  variables, concerns argument coercion, which model and reference share)
+                                  named __typename / __schema / __type, the built-in scalar String is present, and
+                                  where an object type declares a field of an interface it implements, every object
+                                  type possible for the object's field type is possible for the interface's field
+                                  type (sch_impl_covariant: what IsValidImplementation guarantees and execution uses)
+                                  (decidable; true of every valid schema; evaluated on every generated case)
      rd_mergeable s d             in every grouped field set execution can form (any object type, any depth) the
                                   fields of a response key have one field name: the "same field name" half of
                                   validation's FieldsInSetCanMerge.  A proposition; rd_alias_consistent d = true (a
                                   response key names one field throughout the document) is a decidable sufficient
-                                  condition (C26_mergeable_of_alias_consistent).  Without it the statement is false of
-                                  the model (C26_mergeable_needed: for the invalid `{ x: a { j } x: b { k } }` the executor
-                                  completes k with the type of B.k on an object of type A).
+                                  condition (C26_mergeable_of_alias_consistent).  The proof's typing invariant needs
+                                  it; since the repair of execute_field no request is known on which model and
+                                  reference differ without it (C26_unmergeable_example: for the invalid
+                                  `{ x: a { j } x: b { k } }` both now complete k with the type of A.k).
    The typed document itself is td_build's (Run/TypedDoc.v: valid documents; C18 is about the real construction). *)
 
 (* the fuel handed to the executor, to collect_fields and to argument coercion always suffices *)
@@ -177,12 +183,12 @@ Print Assumptions C26_leaf_completion_eq.
    execute_selection_set, execute_field, complete_value and complete_list_value of the model produce the value and
    (reversed) the new errors that the reference's null propagation computes from its result tree at that position *)
 Theorem C26_simulation : forall s d vars w,
-  sch_names_unique s -> sch_no_meta_fields s -> sch_has_string s -> known_covariant s d = false ->
+  sch_names_unique s -> sch_no_meta_fields s -> sch_has_string s -> sch_impl_covariant s = true ->
   frags_typed s (rd_frags d) ->
   forall f1, S_selset s d vars w f1 /\ S_field s d vars w f1 /\ S_complete s d vars w f1 /\ S_list s d vars w f1.
 Proof. exact sim_all. Qed.
 Check C26_simulation : forall s d vars w,
-  sch_names_unique s -> sch_no_meta_fields s -> sch_has_string s -> known_covariant s d = false ->
+  sch_names_unique s -> sch_no_meta_fields s -> sch_has_string s -> sch_impl_covariant s = true ->
   frags_typed s (rd_frags d) ->
   forall f1, S_selset s d vars w f1 /\ S_field s d vars w f1 /\ S_complete s d vars w f1 /\ S_list s d vars w f1.
 Print Assumptions C26_simulation.
@@ -192,12 +198,12 @@ Print Assumptions C26_simulation.
    nearest nullable ancestor), and neither runs out of fuel *)
 Theorem C26_eq_reference : forall s doc values w d vars root impls,
   execute_prepare s doc values = EpReady d vars root impls ->
-  sch_exec_wf s = true -> known_covariant s d = false -> rd_mergeable s d -> rd_acyclic d = true ->
+  sch_exec_wf s = true -> rd_mergeable s d -> rd_acyclic d = true ->
   fst (execute_request s doc values w) = ref_execute s doc values w.
 Proof. exact c26_eq_reference. Qed.
 Check C26_eq_reference : forall s doc values w d vars root impls,
   execute_prepare s doc values = EpReady d vars root impls ->
-  sch_exec_wf s = true -> known_covariant s d = false -> rd_mergeable s d -> rd_acyclic d = true ->
+  sch_exec_wf s = true -> rd_mergeable s d -> rd_acyclic d = true ->
   fst (execute_request s doc values w) = ref_execute s doc values w.
 Print Assumptions C26_eq_reference.
 
@@ -211,12 +217,12 @@ Print Assumptions C26_mergeable_of_alias_consistent.
 
 Theorem C26_eq_reference_decidable : forall s doc values w d vars root impls,
   execute_prepare s doc values = EpReady d vars root impls ->
-  sch_exec_wf s = true -> known_covariant s d = false -> rd_alias_consistent d = true -> rd_acyclic d = true ->
+  sch_exec_wf s = true -> rd_alias_consistent d = true -> rd_acyclic d = true ->
   fst (execute_request s doc values w) = ref_execute s doc values w.
 Proof. exact c26_eq_reference_alias. Qed.
 Check C26_eq_reference_decidable : forall s doc values w d vars root impls,
   execute_prepare s doc values = EpReady d vars root impls ->
-  sch_exec_wf s = true -> known_covariant s d = false -> rd_alias_consistent d = true -> rd_acyclic d = true ->
+  sch_exec_wf s = true -> rd_alias_consistent d = true -> rd_acyclic d = true ->
   fst (execute_request s doc values w) = ref_execute s doc values w.
 Print Assumptions C26_eq_reference_decidable.
 
@@ -225,13 +231,13 @@ Print Assumptions C26_eq_reference_decidable.
    positions, up to the root field, are non-null *)
 Theorem C26_data_null_iff : forall s doc values w d vars root impls r log,
   execute_prepare s doc values = EpReady d vars root impls ->
-  sch_exec_wf s = true -> known_covariant s d = false -> rd_mergeable s d -> rd_acyclic d = true ->
+  sch_exec_wf s = true -> rd_mergeable s d -> rd_acyclic d = true ->
   execute_request s doc values w = (EoResponse r, log) ->
   (er_data r = None <-> rt_fields_propagate (ref_root_fields s d vars root w) = true).
 Proof. exact c26_data_null_iff. Qed.
 Check C26_data_null_iff : forall s doc values w d vars root impls r log,
   execute_prepare s doc values = EpReady d vars root impls ->
-  sch_exec_wf s = true -> known_covariant s d = false -> rd_mergeable s d -> rd_acyclic d = true ->
+  sch_exec_wf s = true -> rd_mergeable s d -> rd_acyclic d = true ->
   execute_request s doc values w = (EoResponse r, log) ->
   (er_data r = None <-> rt_fields_propagate (ref_root_fields s d vars root w) = true).
 Print Assumptions C26_data_null_iff.
@@ -240,19 +246,18 @@ Print Assumptions C26_data_null_iff.
 Example C26_hypotheses_nonvacuous :
   exists d vars root impls,
     execute_prepare x_nv_schema x_nv_doc [] = EpReady d vars root impls /\
-    sch_exec_wf x_nv_schema = true /\ known_covariant x_nv_schema d = false /\ rd_alias_consistent d = true /\
+    sch_exec_wf x_nv_schema = true /\ rd_alias_consistent d = true /\
     rd_acyclic d = true /\ rd_mergeable x_nv_schema d /\
     rt_fields_propagate (ref_root_fields x_nv_schema d vars root x_nv_world) = false.
 Proof. exact c26_hyps_nonvacuous. Qed.
 
-(* rd_mergeable cannot be dropped: an (invalid) document whose two fields of response key x do not merge, on which the
-   model and the reference differ although all other hypotheses hold *)
-Example C26_mergeable_needed :
+(* the former counterexample to dropping rd_mergeable: an (invalid) document whose two fields of response key x do not
+   merge; since the repair of execute_field the model and the reference agree on it *)
+Example C26_unmergeable_example :
   (exists d, td_build x_mg_schema x_mg_doc = Some d /\ sch_exec_wf x_mg_schema = true /\
-             known_covariant x_mg_schema d = false /\ rd_acyclic d = true /\ rd_alias_consistent d = false) /\
+             rd_acyclic d = true /\ rd_alias_consistent d = false) /\
   fst (execute_request x_mg_schema x_mg_doc [] x_mg_world) =
-    EoResponse {| er_data := Some [(xs "x", JObj [(xs "j", JInt 1); (xs "k", JStr (xs "s"))])]; er_errors := [] |} /\
-  ref_execute x_mg_schema x_mg_doc [] x_mg_world =
     EoResponse {| er_data := Some [(xs "x", JObj [(xs "j", JInt 1); (xs "k", JNull)])];
-                  er_errors := [{| ge_class := EcLeaf; ge_path := [PsKey (xs "x"); PsKey (xs "k")] |}] |}.
-Proof. exact c26_mergeable_needed. Qed.
+                  er_errors := [{| ge_class := EcLeaf; ge_path := [PsKey (xs "x"); PsKey (xs "k")] |}] |} /\
+  ref_execute x_mg_schema x_mg_doc [] x_mg_world = fst (execute_request x_mg_schema x_mg_doc [] x_mg_world).
+Proof. exact c26_unmergeable_example. Qed.
